@@ -35,14 +35,33 @@ func post_MakeChannel(res0 *security.Channel) bool { return res0 != nil }
 // @ assume (github.com/emitter-io/emitter/internal/provider/contract.Provider).Get iface post=post_Provider_Get
 func post_Provider_Get(res0 contract.Contract, res1 bool) bool { return !res1 || res0 != nil }
 
-// the permission mask of a request is the union of its letters and never contains the master bit
-// @ verify (*Request).access pre=pre_Request post=post_access props=C11
-// @ loop (*Request).access 0 inv inv_access
+// the permission mask of a request is the union of its letters - each letter its own permission, r w s l p e x, and
+// nothing else - and never contains the master bit
+// @ verify (*Request).access pre=pre_Request post=post_access,post_access_letters props=C11
+// @ loop (*Request).access 0 inv inv_access,inv_access_letters
 func pre_Request(m *Request) bool { return m != nil }
 func inv_access(i int, m *Request, required uint8) bool {
 	return 0 <= i && i <= len(m.Type) && required&security.AllowMaster == 0
 }
 func post_access(m *Request, res0 uint8) bool { return res0&security.AllowMaster == 0 }
+
+// specHasLetter: the letter c occurs among the first n characters of the request's type string
+func specHasLetter(t string, n int, c byte) bool {
+	return vs.Exists(0, n, func(j int) bool { return t[j] == c })
+}
+func specLetters(t string, n int, mask uint8) bool {
+	return (mask&security.AllowRead != 0) == specHasLetter(t, n, 'r') &&
+		(mask&security.AllowWrite != 0) == specHasLetter(t, n, 'w') &&
+		(mask&security.AllowStore != 0) == specHasLetter(t, n, 's') &&
+		(mask&security.AllowLoad != 0) == specHasLetter(t, n, 'l') &&
+		(mask&security.AllowPresence != 0) == specHasLetter(t, n, 'p') &&
+		(mask&security.AllowExtend != 0) == specHasLetter(t, n, 'e') &&
+		(mask&security.AllowExecute != 0) == specHasLetter(t, n, 'x')
+}
+func inv_access_letters(i int, m *Request, required uint8) bool {
+	return 0 <= i && i <= len(m.Type) && specLetters(m.Type, i, required)
+}
+func post_access_letters(m *Request, res0 uint8) bool { return specLetters(m.Type, len(m.Type), res0) }
 
 func specBE16(k []byte, i int) uint16 { return uint16(k[i])<<8 | uint16(k[i+1]) }
 func specBE32(k []byte, i int) uint32 {
